@@ -99,7 +99,10 @@ func selftestEngine2(o opts) int {
 			cases = o.cases
 		}
 		var logs []string
-		for _, spec := range []struct{ workers int; procs string }{{16, "16"}, {7, "4"}, {16, "1"}, {3, "16"}} {
+		for _, spec := range []struct {
+			workers int
+			procs   string
+		}{{16, "16"}, {7, "4"}, {16, "1"}, {3, "16"}} {
 			oo.workers = spec.workers
 			os.Setenv("GOMAXPROCS", spec.procs)
 			m := runProbeWorkers(s, probe, oo, cases, 900, prop == "C20", "-eventlog", "-shrink", "0")
